@@ -162,7 +162,7 @@ class Tree:
                 t, _ = self.module_text()
                 self.add(spd + "_pytest/" + rnd.choice(["tmpdir.py", "fixtures.py", "deep/a/b.py", "deep/a/b/c.py", "test_skip.py"]), t)
                 self.tags.append("venv:_pytest")
-            for where in (["outside"] if rnd.random() < 0.35 else []) + (["inside"] if rnd.random() < 0.3 else []):
+            for where in (["outside"] if rnd.random() < 0.35 else []) + (["inside"] if rnd.random() < 0.3 else []) + (["sibling"] if rnd.random() < 0.3 else []):
                 self.editable(spd, where)
         # conftests
         for li, d in enumerate(dirs):
@@ -219,6 +219,10 @@ class Tree:
                 if getattr(self, "lib_star", None) and rnd.random() < 0.6:
                     deeper_imports.append(self.lib_star)          # the library a conftest imports directly, reached through a longer chain
                     self.tags.append("plugin-chain:reaches-imported-library")
+                if rnd.random() < 0.35:
+                    # an import cycle among plugin modules (helpers imports the plugin back, or itself)
+                    deeper_imports.append(rnd.choice(["from .plugin import *", "from %s.plugin import *" % pk, "from .helpers import *"]))
+                    self.tags.append("plugin-chain:cycle")
                 th, _ = self.module_text(imports=deeper_imports)
                 self.add(spd + pk + "/helpers.py", th)
                 if "deeper" in th:
@@ -227,7 +231,10 @@ class Tree:
                 imp.append(rnd.choice(["from .helpers import *", "from %s.helpers import *" % pk, "from .helpers import nothing_here"]))
             plug = None
             if rnd.random() < 0.3:
-                tx, _ = self.module_text()
+                back = rnd.random() < 0.4
+                tx, _ = self.module_text(plugins=[pk + ".plugin"] if back else None)
+                if back:
+                    self.tags.append("plugin-chain:pytest_plugins-cycle")
                 self.add(spd + pk + "/extra.py", tx)
                 plug = [pk + ".extra"]
             t, _ = self.module_text(imports=imp, plugins=plug)
@@ -262,7 +269,9 @@ class Tree:
         raw = self.uniq(rnd.choice(["my-ed", "my_ed", "My.Ed"]))
         norm = raw.replace("-", "_").replace(".", "_").lower()
         pkg = norm
-        src = ("ext/%s_src/" % norm) if where == "outside" else "ws/src/"
+        # "sibling": outside the workspace, in a directory whose NAME extends the workspace's
+        # (ws_plugins beside ws): inside only for a textual prefix test
+        src = ("ext/%s_src/" % norm) if where == "outside" else ("ws_plugins/%s_src/" % norm) if where == "sibling" else "ws/src/"
         self.tags.append("editable:" + where)
         t, _ = self.module_text(imports=["from .more import *"] if rnd.random() < 0.5 else [], plugins=[pkg + ".extra"] if rnd.random() < 0.3 else None)
         self.add(src + pkg + "/__init__.py", "")
@@ -335,6 +344,9 @@ def to_term(tree, case_dir, obs):
         L.clist(cached), L.clist(plugin), L.clist(defs), L.clist(av))
 
 
+HANGS = []
+
+
 def run_trees(seeds, corpus=()):
     h1, _ = core.build_harness()
     base = tempfile.mkdtemp(prefix="verif_c14_")
@@ -359,8 +371,18 @@ def run_trees(seeds, corpus=()):
             ops += [{"op": "available", "path": os.path.join(case_dir, r)} for r in tests if not r.endswith("conftest.py")]
             cases.append({"id": i, "ops": ops})
             trees.append((tree, case_dir, [r for r in tests if not r.endswith("conftest.py")]))
-        obs, _ = core.run_h1(h1, cases, "C14_scan")
+        obs, todo = {}, list(cases)
+        while todo:
+            got, _ = core.run_h1(h1, todo, "C14_scan")
+            obs.update(got)
+            # the harness stops at the first case that outruns its watchdog (60 s)
+            todo = [c for c in todo if c["id"] not in got]
+            if len(HANGS) >= 3:
+                break
+            HANGS.extend(i for i in got if got[i].get("hang"))
         for i, (tree, case_dir, tests) in enumerate(trees):
+            if i not in obs or obs[i].get("hang"):
+                continue
             o = obs[i]["obs"]
             terms.append((i, to_term(tree, case_dir, (o[1], list(zip(tests, o[2:]))))))
     finally:
@@ -387,6 +409,7 @@ def run(r):
     n = int(os.environ.get("VERIF_CASES", 40 if quick else 800))
     seeds = [r.seed * 100000 + 14 + i for i in range(n)]
     corpus = load_corpus()
+    del HANGS[:]
     trees, codes = run_trees(seeds, corpus)
     listed = runner.listed_classes(PID, CLASS_BITS)
     hits = collections.Counter()
@@ -398,7 +421,7 @@ def run(r):
         nq += 3 + len(tests)
         tags.update(tree.tags)
         distinct.add(tuple(sorted(set(tree.tags))))
-        for (q, code) in codes[i]:
+        for (q, code) in codes.get(i, []):
             if code & 4:
                 fuel += 1
             cls = [b for b in listed if code & b]
@@ -417,6 +440,11 @@ def run(r):
         return {"property": PID, "question": what, "code": code, "files": tree.files, "meta": tree.meta, "tags": tree.tags,
                 "seed": None if i < len(corpus) else seeds[i - len(corpus)]}
 
+    for i in HANGS[:3]:
+        tree, case_dir, tests = trees[i]
+        r.violation({"property": PID, "why": "scan_workspace did not return within the watchdog (60 s): the import scan does not converge on this tree",
+                     "files": tree.files, "meta": tree.meta, "tags": tree.tags,
+                     "seed": None if i < len(corpus) else seeds[i - len(corpus)]}, "hang_%d" % i)
     for (i, q, code) in prop_bad[:3]:
         rp = rep(i, q, code)
         rp["why"] = "the spec rejects what the real scan left behind"
